@@ -35,7 +35,8 @@ StreamOK(e) ==
     LET R == ParseStream(e.w)
         m == Len(R.reqs)
         n == Len(e.d)
-    IN /\ \A i \in 1..n : /\ ~HasDD(e.d[i].path) /\ e.d[i].plen = Len(e.d[i].path) /\ e.d[i].cplen <= e.d[i].plen
+    IN /\ e.ms < 8000                                  \* served promptly (the peer had closed)
+       /\ \A i \in 1..n : /\ ~HasDD(e.d[i].path) /\ e.d[i].plen = Len(e.d[i].path) /\ e.d[i].cplen <= e.d[i].plen
                           /\ ~HasDD(SubSeq(e.d[i].path, 1, e.d[i].cplen))
                           /\ e.d[i].probeok
        /\ IF R.st = "bad" THEN n >= m ELSE n = m
